@@ -125,6 +125,9 @@ def create_pobs_string(obsl, name, spec='', origin='', symbol=[], enstag=None):
             raise Exception('You try to export dobs to obs!')
         if len(o.deltas.keys()) != nr:
             raise Exception('Incompatible obses in list')
+        for rname in names:
+            if rname not in o.idl or list(o.idl[rname]) != list(obsl[0].idl[rname]):
+                raise Exception('All Obs in a pobs file have to be defined on the same replica and configurations.')
     od['observables'] = {}
     od['observables']['schema'] = {'name': 'lattobs', 'version': '1.0'}
     od['observables']['origin'] = {
